@@ -170,7 +170,27 @@ pub fn gen_case(seed: u64, hist: u64) -> SchedCase {
     p.min_ops = 15;
     p.max_ops = 45;
     p.purge_heavy = r.chance(1, 3);
-    let h = seq::gen_case(r.next(), hist, &p, "C04");
+    let mut h = seq::gen_case(r.next(), hist, &p, "C04");
+    // a quarter of the histories carry one or two appends of 80-400 kB, preferably right after a flush: a
+    // large amount of journalled-but-unflushed data next to a pending flush in the worker's queue
+    if r.chance(1, 4) {
+        let mut done = 0;
+        let n = h.steps.len();
+        for i in 1..n {
+            let after_flush = matches!(h.steps[i - 1].op, crate::store::Op::Flush { .. });
+            if let crate::store::Op::Append(es) = &mut h.steps[i].op {
+                if (after_flush || r.chance(1, 6)) && done < 2 {
+                    if let Some(e) = es.first_mut() {
+                        let target = *r.pick(&[80_000usize, 140_000, 300_000, 400_000]);
+                        while e.1.len() < target {
+                            e.1.push('L');
+                        }
+                        done += 1;
+                    }
+                }
+            }
+        }
+    }
     let sched = sched::gen_sched(&mut r, h.steps.len());
     let faults = gen_faults(&mut r);
     SchedCase { hist: h, sched, faults, reader_steps: vec![], gate_acks: r.chance(1, 3) }
@@ -238,6 +258,27 @@ pub fn run_shard(ctx: &mut Ctx) {
         let n = if ctx.tier == Tier::Quick { 2 } else { 30 };
         let (t0, b) = (ctx.t0, ctx.budget_s);
         crate::props::maxbatch::run(&mut ctx.out, n, &mut r, &|| util::now_s() - t0 < b + 20.0);
+    }
+    // shutdown: a flush with a callback issued right before the store is dropped (worker parked) must still be
+    // answered exactly once by the time drop() has returned
+    {
+        let n = if ctx.tier == Tier::Quick { 10 } else { 150 };
+        for i in 0..n {
+            if !ctx.time_left() {
+                break;
+            }
+            let mut case = crate::props::c14::gen_case(r.next(), 7_000_000 + i);
+            case.unacked_final_flush = true;
+            case.probe = false;
+            case.hold_ms = 50;
+            match crate::props::c14::run_one(&case) {
+                Ok((_, Some(vi))) if vi.prop == "C04" => ctx.out.viol(vi),
+                Ok(_) => ctx.out.count("shutdown_cases(flush_with_callback_then_drop)", 1),
+                Err(RunErr::Viol(vi)) if vi.prop == "C04" => ctx.out.viol(vi),
+                Err(RunErr::Inconclusive(e)) => ctx.out.inconclusive.push(e),
+                Err(_) => {}
+            }
+        }
     }
     ctx.out.count("acks_ok_checked_against_shadow_fs", stats.acks_ok);
     ctx.out.count("acks_err", stats.acks_err);
